@@ -206,6 +206,11 @@ func (mbox *Mailbox) flagsLocked() []imap.Flag {
 func (mbox *Mailbox) Expunge(w *imapserver.ExpungeWriter, uids *imap.UIDSet) error {
 	expunged := make(map[*message]struct{})
 	mbox.mutex.Lock()
+	if uids != nil {
+		// Resolve "*"
+		static := mbox.staticUIDSetLocked(*uids)
+		uids = &static
+	}
 	for _, msg := range mbox.l {
 		if uids != nil && !uids.Contains(msg.uid) {
 			continue
@@ -475,19 +480,23 @@ func (mbox *MailboxView) staticNumSet(numSet imap.NumSet) imap.NumSet {
 		}
 		return static
 	case imap.UIDSet:
-		max := uint32(mbox.uidNext) - 1
-		var static imap.UIDSet
-		for _, r := range numSet {
-			start, stop := uint32(r.Start), uint32(r.Stop)
-			staticNumRange(&start, &stop, max)
-			if start != 0 && stop != 0 {
-				static.AddRange(imap.UID(start), imap.UID(stop))
-			}
-		}
-		return static
+		return mbox.staticUIDSetLocked(numSet)
 	}
 
 	return numSet
+}
+
+func (mbox *Mailbox) staticUIDSetLocked(uidSet imap.UIDSet) imap.UIDSet {
+	max := uint32(mbox.uidNext) - 1
+	var static imap.UIDSet
+	for _, r := range uidSet {
+		start, stop := uint32(r.Start), uint32(r.Stop)
+		staticNumRange(&start, &stop, max)
+		if start != 0 && stop != 0 {
+			static.AddRange(imap.UID(start), imap.UID(stop))
+		}
+	}
+	return static
 }
 
 func staticNumRange(start, stop *uint32, max uint32) {
